@@ -156,6 +156,24 @@ def theorem_at(path, lineno):
     return None
 
 
+def lean_import_closure(modules):
+    """Transitive `import VelaVerif...` closure of Lean modules, read from the sources."""
+    seen, todo = set(), [m for m in modules if m.startswith("VelaVerif")]
+    while todo:
+        m = todo.pop()
+        if m in seen:
+            continue
+        seen.add(m)
+        path = os.path.join(LEAN_DIR, *m.split(".")) + ".lean"
+        try:
+            txt = open(path, encoding="utf-8").read()
+        except OSError:
+            continue
+        for mm in re.findall(r"^import\s+(VelaVerif[\w.]*)", txt, flags=re.M):
+            todo.append(mm)
+    return seen
+
+
 def lean_stage(prop_modules, extra_targets=()):
     """gen_tables -> lake build (library, driver, property modules) -> audit. Never raises on a
     proof failure: returns LeanResult with .ok False and the failing obligations named."""
@@ -164,9 +182,25 @@ def lean_stage(prop_modules, extra_targets=()):
         r = _run([PY, os.path.join(HERE, "gen_tables.py")], env=dict(os.environ, VERIF_REPO=REPO))
         res.log += r.stdout + r.stderr
         if r.returncode != 0:
-            # table extraction failed: the code no longer has the shape the translator reads
+            # the translator itself died: the code no longer has the shape it reads
             res.ok = False
             res.failed.append("translator harness/gen_tables.py failed: " + (r.stderr.strip().split("\n") or ["?"])[-1])
+        else:
+            # a plug-in that failed concerns only the checks whose property modules import one of its files
+            try:
+                status = json.load(open(os.path.join(LEAN_DIR, "VelaVerif", "Gen", ".status.json")))
+            except Exception:
+                status = {"failed": {}}
+            if status.get("failed"):
+                closure = lean_import_closure(list(prop_modules) + list(extra_targets))
+                for name, info in sorted(status["failed"].items()):
+                    mods = {"VelaVerif.Gen." + f[:-5].replace("/", ".") for f in info.get("files") or []}
+                    if not mods or (mods & closure):
+                        res.ok = False
+                        res.failed.append(f"translator plug-in harness/tables/{name}.py failed: {info.get('error')} "
+                                          f"(tables {sorted(mods) or '?'} are stale)")
+                    else:
+                        res.log += f"(translator plug-in {name} failed; its tables {sorted(mods)} are not imported by {prop_modules})\n"
         # the driver and model must build, otherwise nothing can run
         r = _run(["lake", "build", "drv"], cwd=LEAN_DIR)
         res.log += r.stdout + r.stderr
